@@ -60,13 +60,21 @@ async fn run_case(case: Vec<String>) -> String {
     builder.add_layer(RecLayer { name: "rec", take: true, seen: seen.clone(), taken: taken.clone() });
     let endpoint = builder.build();
 
+    // the Via values as separate lines, as one comma separated line, or under the compact name (all equivalent)
+    let variant = case[0].bytes().fold(0u32, |a, b| a.wrapping_mul(31).wrapping_add(b as u32)) % 3;
     let mut via_lines = String::new();
+    let mut via_values: Vec<String> = vec![];
     for v in &vias {
         // transport|kind|num|text|port|params
         let f: Vec<&str> = v.split('|').collect();
         let port = if f[4] == "-" { String::new() } else { format!(":{}", f[4]) };
         let params: String = f[5].split(';').filter(|p| !p.is_empty()).map(|p| format!(";{}", p)).collect();
-        via_lines.push_str(&format!("Via: SIP/2.0/{} {}{}{}\r\n", f[0], f[3], port, params));
+        via_values.push(format!("SIP/2.0/{} {}{}{}", f[0], f[3], port, params));
+    }
+    match variant {
+        1 => via_lines.push_str(&format!("Via: {}\r\n", via_values.join(", "))),
+        2 => via_values.iter().for_each(|v| via_lines.push_str(&format!("v: {}\r\n", v))),
+        _ => via_values.iter().for_each(|v| via_lines.push_str(&format!("Via: {}\r\n", v))),
     }
     let ts: String = timestamps.iter().map(|t| format!("Timestamp: {}\r\n", t)).collect();
     let text = format!(
